@@ -733,6 +733,8 @@ func (h *Harness) Families() []*report {
 	f.loops()
 	f.calls()
 	f.scoping()
+	f.floats()
+	f.namespaces()
 	h.mu.Lock()
 	h.ctx.Extra["family_cases"] = len(f.cases)
 	h.mu.Unlock()
